@@ -141,33 +141,102 @@ class _Canon(ast.NodeTransformer):
             n.body, n.orelse = n.orelse, n.body
         return n
 
-    # ---- `X = []; for T in IT: [if C:] X.append(E)`  ->  `X = [E for T in IT if C]`  (and set()/add)
+    # ---- accumulation loops as comprehensions -----------------------------------------------------------------------------
+    #   X = []            X = []                      X = []                         D = {}
+    #   for T in IT:      for T in IT:                if C:                          for T in IT:
+    #       [t = e]           if C: X.append(A)           for ..: X.append(A)            D[K] = V
+    #       [if C:]           else: X.append(B)       else:
+    #           X.append(E)                               for ..: X.append(B)
     @staticmethod
-    def _append_loop(init, loop):
+    def _subst_names(node, m):
+        import copy as _c
+
+        class R(ast.NodeTransformer):
+            def visit_Name(self, n):
+                if isinstance(n.ctx, ast.Load) and n.id in m:
+                    return _c.deepcopy(m[n.id])
+                return n
+        return R().visit(_c.deepcopy(node))
+
+    @classmethod
+    def _loop_comp(cls, x, kind, loop):
+        """comprehension equal to what `loop` accumulates into the fresh container x, or None"""
+        if not isinstance(loop, ast.For) or loop.orelse or not loop.body:
+            return None
+        body = list(loop.body)
+        temps = {}
+        # (loops that first compute temporaries are left alone: the rules for those sites read the loop form)
+        while False and len(body) > 1 and isinstance(body[0], ast.Assign) and len(body[0].targets) == 1 and isinstance(body[0].targets[0], ast.Name):
+            t = body[0].targets[0].id
+            val = cls._subst_names(body[0].value, temps)
+            if t == x or any(isinstance(n, (ast.Call,)) and isinstance(n.func, ast.Attribute) and n.func.attr in ("append", "remove", "pop", "extend", "update", "add") for n in ast.walk(val)):
+                return None
+            later = ast.Module(body=body[1:], type_ignores=[])
+            if any(isinstance(n, ast.Name) and n.id == t and isinstance(n.ctx, ast.Store) for n in ast.walk(later)):
+                return None
+            if any(isinstance(n, ast.Call) and isinstance(n.func, ast.Attribute) and isinstance(n.func.value, ast.Name) and n.func.value.id == t
+                   and n.func.attr in ("append", "remove", "pop", "extend", "update", "add", "insert", "sort", "clear") for n in ast.walk(later)):
+                return None        # the temp is mutated afterwards: not a pure value
+            temps[t] = val
+            body = body[1:]
+        if len(body) != 1:
+            return None
+        conds = []
+        st = body[0]
+
+        def acc_value(s_):
+            """expression accumulated by statement s_ into x (append/add arg, or (key, value) for a dict store)"""
+            if kind in ("list", "set") and isinstance(s_, ast.Expr) and isinstance(s_.value, ast.Call) and isinstance(s_.value.func, ast.Attribute) \
+                    and isinstance(s_.value.func.value, ast.Name) and s_.value.func.value.id == x \
+                    and s_.value.func.attr == ("append" if kind == "list" else "add") and len(s_.value.args) == 1 and not s_.value.keywords:
+                return s_.value.args[0]
+            if kind == "dict" and isinstance(s_, ast.Assign) and len(s_.targets) == 1 and isinstance(s_.targets[0], ast.Subscript) \
+                    and isinstance(s_.targets[0].value, ast.Name) and s_.targets[0].value.id == x:
+                return (s_.targets[0].slice, s_.value)
+            return None
+        while isinstance(st, ast.If) and not st.orelse and len(st.body) == 1:
+            conds.append(st.test)
+            st = st.body[0]
+        elt = acc_value(st)
+        if elt is None and isinstance(st, ast.If) and len(st.body) == 1 and len(st.orelse) == 1 and kind != "dict":
+            a, b = acc_value(st.body[0]), acc_value(st.orelse[0])
+            if a is not None and b is not None:
+                elt = ast.IfExp(test=st.test, body=a, orelse=b)
+        if elt is None:
+            return None
+        parts = [loop.iter] + conds + (list(elt) if isinstance(elt, tuple) else [elt])
+        if any(isinstance(n, ast.Name) and n.id == x for p_ in parts for n in ast.walk(p_)):
+            return None
+        gen = ast.comprehension(target=loop.target, iter=loop.iter, ifs=[cls._subst_names(c, temps) for c in conds], is_async=0)
+        if kind == "dict":
+            comp = ast.DictComp(key=cls._subst_names(elt[0], temps), value=cls._subst_names(elt[1], temps), generators=[gen])
+        else:
+            comp = (ast.ListComp if kind == "list" else ast.SetComp)(elt=cls._subst_names(elt, temps), generators=[gen])
+        return comp
+
+    @classmethod
+    def _append_loop(cls, init, nxt):
         if not (isinstance(init, ast.Assign) and len(init.targets) == 1 and isinstance(init.targets[0], ast.Name)):
             return None
         x = init.targets[0].id
         v = init.value
-        kind = "list" if (isinstance(v, ast.List) and not v.elts) or (isinstance(v, ast.Call) and ast.unparse(v) == "list()") else \
-            "set" if isinstance(v, ast.Call) and ast.unparse(v) == "set()" else None
-        if kind is None or not isinstance(loop, ast.For) or loop.orelse or len(loop.body) != 1:
+        src = ast.unparse(v)
+        kind = "list" if src in ("[]", "list()") else "set" if src == "set()" else "dict" if src in ("{}", "dict()", "OrderedDict()") else None
+        if kind is None:
             return None
-        conds = []
-        st = loop.body[0]
-        while isinstance(st, ast.If) and not st.orelse and len(st.body) == 1:
-            conds.append(st.test)
-            st = st.body[0]
-        if not (isinstance(st, ast.Expr) and isinstance(st.value, ast.Call) and isinstance(st.value.func, ast.Attribute) and isinstance(st.value.func.value, ast.Name)
-                and st.value.func.value.id == x and st.value.func.attr == ("append" if kind == "list" else "add") and len(st.value.args) == 1 and not st.value.keywords):
+        empty = v
+        if isinstance(nxt, ast.For):
+            comp = cls._loop_comp(x, kind, nxt)
+        elif isinstance(nxt, ast.If) and len(nxt.body) == 1 and len(nxt.orelse) <= 1 and not any(isinstance(n, ast.Name) and n.id == x for n in ast.walk(nxt.test)):
+            a = cls._loop_comp(x, kind, nxt.body[0])
+            b = cls._loop_comp(x, kind, nxt.orelse[0]) if nxt.orelse else empty
+            comp = ast.IfExp(test=nxt.test, body=a, orelse=b) if a is not None and b is not None else None
+        else:
+            comp = None
+        if comp is None:
             return None
-        used = {n.id for n in ast.walk(loop.iter) if isinstance(n, ast.Name)} | {n.id for c in conds for n in ast.walk(c) if isinstance(n, ast.Name)} | \
-            {n.id for n in ast.walk(st.value.args[0]) if isinstance(n, ast.Name)}
-        if x in used:
-            return None
-        gen = ast.comprehension(target=loop.target, iter=loop.iter, ifs=conds, is_async=0)
-        comp = (ast.ListComp if kind == "list" else ast.SetComp)(elt=st.value.args[0], generators=[gen])
         new = ast.Assign(targets=[ast.Name(id=x, ctx=ast.Store())], value=comp)
-        return ast.copy_location(ast.fix_missing_locations(ast.copy_location(new, init)), init)
+        return ast.fix_missing_locations(ast.copy_location(new, init))
 
     def _fold_loops(self, body):
         out = []
